@@ -49,6 +49,23 @@ DESC = {
     "C11_r2a": ("C11", "AsmBlock.instructions_final_bytecode scans only the last instruction, so the replay check no longer sees a block-ending opcode in the middle", "a log entry with a raw STOP/RETURN/JUMP name among otherwise correct ids"),
     "C12_r2a": ("C12", "sstore_seq is no longer reset in init_globals and generate_storage_info consumes it by alias", "an earlier block whose analysis raised after an SSTORE/KECCAK256 expression was appended"),
     "C16_mB": ("C16", "update_with_tree_level applies the two-positions-earlier rule to commutative instructions too: min_length one too large", "second operand of a commutative operation is the deepest dependency chain"),
+    "C15_r3a": ("C15", "build_asm_bytecode: the PUSH0 branch no longer passes modifierDepth to the item it builds", "PUSH0 enabled and a zero push inside a modifier body (item with modifierDepth)"),
+    "C03_r3a": ("C03/C01", "apply_cond_transformation: the look-up of an existing instruction in rule DIV(X,SHL(Y,1)) => SHR(Y,X) filters on SHL instead of SHR", "a DIV by 1<<Y next to a live SHL(Y,X) with the same operands"),
+    "C09_r3a": ("C09", "optimize_asm_contract creates the list of run-code blocks once instead of once per sub-assembly: every code-bearing .data entry gets the concatenation of all of them", "a contract whose top-level .data has two or more entries with .code"),
+    "C11_r3a": ("C11/C05", "compare_storage_userdef_ins tests the opcode names exactly: MSTORE8 is no longer a memory instruction for the checker", "a block with MSTORE8 and a log that drops the byte store or rewires its operands"),
+    "C05_r3a": ("C05", "compare_variables memoises pairs of instruction ids found equal; the memo is cleared once per block instead of once per sub-block", "two sub-blocks, the difference in a later one, defined by an instruction id that also occurs (compared equal) in an earlier one"),
+    "C12_r3a": ("C12", "modified_userdef_vals (renamings of duplicated terms) is initialised at module level instead of in init_globals", "an earlier block with the same commutative term twice, then a block storing a computed term with the stale name"),
+    "C02_r3a": ("C02", "generate_dependences stops ordering a load before later stores at the first full store to the syntactically same key", "SLOAD(k); SSTORE(k,v); SSTORE(k',v) with k' a computed key that may equal k"),
+    "C08_r3a": ("C08", "opcodes.py: SELFBALANCE moved from the 5-gas tier to the 2-gas tier", "a block that uses one SELFBALANCE value twice (SELFBALANCE DUP1 ...)"),
+    "C04_r3a": ("C04", "greedy compute_one_with_stack: the operands-already-on-top shortcut lost its commutativity guard", "a non-commutative binary operation whose operands sit on top in swapped order, each with one remaining use (SWAP1 SUB)"),
+    "C10_r3a": ("C10", "get_sequence rebinds its list argument instead of shrinking it in place: split_by_numbers never makes progress", "-partition and a block of more than 22 instructions with a store within the first window"),
+    "C18_r3a": ("C18", "and/or simplification folded into one helper that decides x together with not(x) as False for both connectives", "an or that contains, after flattening, an argument and its negation"),
+    "C17_r3a": ("C17", "the -c contract filter matches with endswith on the full name instead of equality on the short name", "-c NAME and another contract whose name ends with NAME later in the document"),
+    "C06_r3a": ("C06", "ld_sto_dependency (direct memory encoding): the range of forbidden load positions after a store loses its last position", "-memory-encoding direct, a load that must precede a store, the load at its last allowed position"),
+    "C01_r3a": ("C01/C02", "unify_keccak_instructions compares the offsets of two KECCAK256 but no longer their lengths", "two KECCAK256 over the same offset with different lengths in one sub-block"),
+    "C16_r3a": ("C16", "replace_loads_by_sstores discounts one instruction from init_progr_len for every forwarded load", "a store followed by a load of the same place whose address is a stack input, loaded value still needed (DUP2 DUP2 SSTORE SLOAD)"),
+    "C14_r3a": ("C14", "generate_subblocks skips empty sub-blocks before the running source stack is advanced past their split instruction", "two adjacent split instructions, or a split instruction first in the block, followed by a non-empty sub-block"),
+    "C07_r3a": ("C07", "soft_constraints_direct: no soft clause for an instruction at the last position of its window", "-direct-inequalities and an expensive instruction that can be delayed to its upper position bound"),
 }
 
 
